@@ -12,6 +12,22 @@ well-formed UTF-8 sequence of Table 3-7 is such a character (`uchar_isChar`).
 set_option linter.unusedSimpArgs false
 namespace MdsVerif.Proofs.Trunc
 open MdsVerif.Model.Mstr
+
+/-- `Model.Mstr.trunc` with the pinned test of `Gen.Small` (`if n >= len(s) { return s }`, regenerated from
+mstr.go on every run) written out; the proofs unfold `trunc` only through this lemma. -/
+theorem trunc_def (s : MdsVerif.Model.Mstr.Bytes) (n : Int) :
+    MdsVerif.Model.Mstr.trunc s n =
+      if n ≥ s.length then .ok s
+      else if n < 0 then .bounds
+      else
+        match MdsVerif.Model.Mstr.cut s n.toNat with
+        | .ok k => MdsVerif.Model.Mstr.slicePrefix s k
+        | .index => .index
+        | .bounds => .bounds := by
+  unfold MdsVerif.Model.Mstr.trunc
+  have e : (MdsVerif.Gen.Small.truncWhole n s.length = true) = (n ≥ s.length) := by
+    unfold MdsVerif.Gen.Small.truncWhole; rw [decide_eq_true_eq]
+  simp only [e]; rfl
 open MdsVerif.Spec.Bytes (charLen validF validUTF8 cont inR second3 second4)
 
 def IsChar (c : List UInt8) : Prop :=
